@@ -262,7 +262,19 @@ func comparePointers(a *SexpPointer, bs Sexp) (int, error) {
 	return 1, nil
 }
 
+// maxCompareDepth bounds the recursion of Compare: arrays, lists and
+// hashes can contain themselves, and comparing such a value used to recurse
+// until the Go stack overflowed (a fatal error no recover() can catch).
+const maxCompareDepth = 10000
+
+var compareDepth int
+
 func (env *Zlisp) Compare(a Sexp, b Sexp) (int, error) {
+	compareDepth++
+	defer func() { compareDepth-- }()
+	if compareDepth > maxCompareDepth {
+		return 0, fmt.Errorf("comparison nested deeper than %d levels (self-referential value?)", maxCompareDepth)
+	}
 
 	var err error
 	if sel, isSel := a.(Selector); isSel {
